@@ -1,6 +1,6 @@
-(* GENERATED on every run by tools/rs2v_glue.py from /repo/src (the one-line projection functions of
-   buint/ bint/ int/ : checked, wrapping, saturating, strict, overflowing (non-loop forms), cmp, ops,
-   bigint_helpers).  Do not edit.  Proofs/GlueTie.v proves each definition equal to the hand-written model. *)
+(* GENERATED on every run by tools/rs2v_glue.py from /repo/src (the non-loop functions of buint/ bint/ int/ :
+   checked, wrapping, saturating, strict, overflowing, cmp, ops, bigint_helpers, mod, const_trait_fillers, unchecked,
+   numtraits).  Do not edit.  Proofs/GlueTieC*.v prove each definition equal to the hand-written model. *)
 From Bnum Require Import Base Prim.
 From Bnum.Model Require Import Digit Core Shift AddSub Mul Div Bits Pow.
 
